@@ -210,7 +210,16 @@ def run_one(sim, params):
                 if early is not None:
                     res["early.sent"] = cli.send(early, 0)
                 res["con"] = True
-            k.spawn(lambda: res.__setitem__("acc", srv.accept()), name="accept%d" % c, daemon=True)
+            # ... and the server may send its first message right after accept() returned, i.e. before the link loop has
+            # sent the CC that accept() queued
+            greet = b"greet/%d;" % c if step_fn is None and sim.chance("greet.msg", 0.5) else None
+
+            def do_accept(srv=srv, c=c, greet=greet):
+                a = srv.accept()
+                if greet is not None:
+                    res["greet.sent"] = a.send(greet, 0)
+                res["acc"] = a
+            k.spawn(do_accept, name="accept%d" % c, daemon=True)
             k.spawn(do_connect, name="connect%d" % c, daemon=True)
             if step_fn is not None:
                 w5.settle(k)
@@ -233,6 +242,15 @@ def run_one(sim, params):
                 if got is not None and got != early:
                     raise Violation("order", "early", "connection %d: first recv() on the accepted socket returned %r, the client "
                                     "sent %r; %r" % (c, got[:16], early, desc))
+            if "acc" in res and "con" in res and greet is not None and res.get("greet.sent"):
+                sim.probe("greeting.message")
+                got = bytes(cli.recv()) if cli.poll("recv", 10.0) else None
+                if got is None and not link_down():
+                    raise Violation("lost", "greeting", "connection %d: the message the server sent right after accept() returned "
+                                    "was accepted by send() but is not returned by recv() on the connecting socket; %r" % (c, desc))
+                if got is not None and got != greet:
+                    raise Violation("order", "greeting", "connection %d: first recv() on the connecting socket returned %r, the "
+                                    "server sent %r; %r" % (c, got[:16], greet, desc))
             if "acc" in res and "con" in res:
                 conns.append({"cli_side": cli_side, "srv_side": srv_side, cli_side: cli, srv_side: res["acc"]})
                 ci = len(conns) - 1
